@@ -306,6 +306,19 @@ def main() -> int:
         "known_findings_reobserved": dict(known_seen),
         "pyoak_src": pyoak_src(),
     }
+    # small per-shard observations (examples of no-verdict cases, aborted histories, line-event counts, ...)
+    notes = {}
+    for e in extras:
+        for k, v in (e or {}).items():
+            if k in ("cmap", "idmap", "_fqn"):
+                continue
+            cur = notes.setdefault(k, [])
+            if isinstance(v, list):
+                cur.extend(v[: max(0, 8 - len(cur))])
+            elif len(cur) < 4 and v not in cur:
+                cur.append(v)
+    if notes:
+        cov["observations"] = json.loads(json.dumps(notes, default=repr))
     if getattr(mod, "EXHAUSTIVE", None) is not None:
         cov["exhaustive"] = bool(mod.EXHAUSTIVE.get(tier, False)) if isinstance(mod.EXHAUSTIVE, dict) else bool(mod.EXHAUSTIVE)
     ev = {
